@@ -65,10 +65,23 @@ func (c08) Gen(seed uint64, idx int, tier string) *Scenario {
 		cfg.NoBind = strings.HasPrefix(kind, "rt.bind")
 	}
 	p := gen.Generate(r, cfg)
+	if r.Chance(1, 8) {
+		// more than 240 constants / locals before the interesting statement: multi-byte operands
+		gen.AddWide(r, p, r.Range(236, 300), r.Chance(1, 2))
+		if kind == "" {
+			p.Layout(r, cfg)
+		}
+	}
 	sc.Class = "noplant"
 	if kind != "" {
 		gen.AddPlant(r, p, kind, cfg)
 		sc.Class = kind
+	}
+	if r.Chance(1, 120) || (tier == "thorough" && r.Chance(1, 30)) {
+		// more than 65536 lines in front: line numbers and line-table sizes beyond 16 bits
+		p.Seps[0] = strings.Repeat("\n", r.Range(65530, 66200)) + p.Seps[0]
+		p.Render()
+		sc.SetInt("manylines", 1)
 	}
 	sc.Src = p.Src
 	for _, t := range p.Toks {
@@ -465,14 +478,26 @@ func (c08) Run(t *testing.T, sc *Scenario) *Outcome {
 		var p2 *bcl.Prog
 		var lerr error
 		lpanic := ""
+		reuse := lr.Chance(1, 4)
 		func() {
 			defer func() {
 				if r := recover(); r != nil {
 					lpanic = fmt.Sprint(r)
 				}
 			}()
-			p2, lerr = bcl.LoadProg(rd, sc.Name, bcl.OptOutput(&out2), bcl.OptLogger(&log2))
+			if reuse {
+				// Load is a method of Prog: load into a Prog that held another program before
+				p2, lerr = bcl.Parse([]byte("# another\n# program\nvar a = 1\n\nprint a\n"), "earlier.bcl", bcl.OptOutput(&out2), bcl.OptLogger(&log2))
+				if lerr == nil {
+					lerr = p2.Load(rd)
+				}
+			} else {
+				p2, lerr = bcl.LoadProg(rd, sc.Name, bcl.OptOutput(&out2), bcl.OptLogger(&log2))
+			}
 		}()
+		if reuse {
+			o.probe("loaded_into_used_prog", 1)
+		}
 		if lpanic == "" && lerr == nil && p2 != nil {
 			ex2 := Exec(p2, &out2, &log2, 0)
 			if ex2.Panic == "" {
